@@ -134,6 +134,11 @@ class LenEval:
             return max(args) if name == "max" else min(args)
         if name == "abs" and len(args) == 1 and isinstance(args[0], int):
             return abs(args[0])
+        if name == "resize" and len(args) >= 2 and isinstance(args[0], Arr):
+            n_ = args[1][0] if isinstance(args[1], tuple) and args[1] else args[1]
+            if isinstance(n_, int):
+                return Arr(n_)          # np.resize(a, (n, ..)) has n rows (filled cyclically - the *values* are P6's business, not a length matter)
+            raise Undecided("resize shape")
         if name == "pad" and args and isinstance(args[0], Arr):
             w = args[1] if len(args) > 1 else (self.ev(kw["pad_width"], env) if "pad_width" in kw else None)
             if isinstance(w, tuple) and w and isinstance(w[0], tuple) and len(w[0]) == 2 and all(isinstance(x, int) for x in w[0]):
